@@ -62,7 +62,17 @@ func TestZZVerifEmit(t *testing.T) {
 	for _, k := range kinds {
 		k := k
 		T := types.Typ[k]
-		for _, n := range lens {
+		// array lengths around the largest value of the index type as well: "this index
+		// type cannot reach the length" shortcuts are decided exactly at that boundary
+		klens := append([]int64{}, lens...)
+		if kb := uint(prog.SizeOf(prog.Type(T, InGo)) * 8); kb <= 32 {
+			max := int64(1)<<kb - 1
+			if T.Info()&types.IsUnsigned == 0 {
+				max = int64(1)<<(kb-1) - 1
+			}
+			klens = append(klens, max-1, max, max+1)
+		}
+		for _, n := range klens {
 			n := n
 			arrp := types.NewPointer(types.NewArray(i64, n))
 			mk(fmt.Sprintf("index__arrptr__%s__%d", T.Name(), n), []types.Type{arrp, T}, i64, func(b Builder, fn Function) Expr {
